@@ -80,6 +80,7 @@ const preludeAxioms = `(declare-fun born (Int) Int)
 (assert (forall ((a (Array Int Int)) (o Int) (n Int)) (! (=> (>= n 0) (= (seq_len (seqof a o n)) n)) :pattern ((seqof a o n)))))
 (assert (forall ((a (Array Int Int)) (o Int) (n Int) (i Int)) (! (=> (and (<= 0 i) (< i n)) (= (seq_at (seqof a o n) i) (select a (+ o i)))) :pattern ((seq_at (seqof a o n) i)))))
 (assert (forall ((a (Array Int Int)) (o Int)) (! (= (seqof a o 0) seq_empty) :pattern ((seqof a o 0)))))
+(assert (forall ((a (Array Int Int)) (o Int)) (! (= (seqof a o 1) (seq_unit (select a o))) :pattern ((seqof a o 1)))))
 (assert (forall ((s GStr)) (! (= (str_of_seq (seq_of_str s)) s) :pattern ((seq_of_str s)))))
 (assert (forall ((q BSeq)) (! (= (seq_of_str (str_of_seq q)) q) :pattern ((str_of_seq q)))))
 (assert (forall ((s GStr)) (! (= (seq_len (seq_of_str s)) (slen_s s)) :pattern ((seq_of_str s)))))
@@ -231,14 +232,38 @@ func (e *Engine) buildPrelude(solver string, body string) string {
 		for _, tg := range all {
 			// an object of allocation type T holds the cells of T; the backing object of make/append for []X holds X cells
 			content := e.tagTy[tg]
+			isBacking := false
 			if st, ok := content.Underlying().(*types.Slice); ok {
 				content = st.Elem()
+				isBacking = true
 			}
 			if nm, ok := content.(*types.Named); ok && nm.Obj() != nil && nm.Obj().Pkg() == nil && nm.Obj().Name() != "error" {
 				continue // pseudo types (function symbols, sentinels)
 			}
-			if !typeContains(content, el, 0) {
+			holds := typeHoldsArrayOf(content, el, 0) || (isBacking && (types.Identical(content, el) || typeKey(content) == typeKey(el)))
+			if !holds {
 				bad = append(bad, fmt.Sprintf("(= t %d)", tg))
+			}
+		}
+		// closed world for unexported named element types: only the package that declares the type can create arrays or
+		// slices of it, and every allocation site of that package is in the loaded program - so the possible backing objects
+		// are exactly the known allocation types that hold such elements
+		if nm, ok := el.(*types.Named); ok && nm.Obj() != nil && !nm.Obj().Exported() && nm.Obj().Pkg() != nil && strings.HasPrefix(nm.Obj().Pkg().Path(), hcPath) {
+			var good []string
+			for _, tg := range all {
+				content := e.tagTy[tg]
+				isBacking := false
+				if st, ok := content.Underlying().(*types.Slice); ok {
+					content = st.Elem()
+					isBacking = true
+				}
+				if typeHoldsArrayOf(content, el, 0) || (isBacking && (types.Identical(content, el) || typeKey(content) == typeKey(el))) {
+					good = append(good, fmt.Sprintf("(= t %d)", tg))
+				}
+			}
+			if len(good) > 0 {
+				fmt.Fprintf(&sb, "(define-fun okslice_%d ((t Int)) Bool (or %s))\n", k, strings.Join(good, " "))
+				continue
 			}
 		}
 		if len(bad) == 0 {
